@@ -63,6 +63,15 @@ theorem makeAssertion_refines (o : Ora) (reqID acs ii untl issuer : String) (nam
   · simp [h, getIssuer_eq, Ctl.toRes, Res.isPanic, Res.get, assertionOf, Callback.mkAssertion, deref]; rfl
   · simp [h, getIssuer_eq, Ctl.toRes, Res.isPanic, Res.get, assertionOf, Callback.mkAssertion, deref]
 
+/-- **`makeFailedResponse` (generated) refines `Callback.mkResponse`** with the instant `time.Now().Format(layout)` and
+    the identifier of its `NewID()` call site -/
+theorem makeFailedResponse_refines (o : Ora) (resp : provider_Response) (reason message fmt : String) :
+    ∃ r, Response_makeFailedResponse o (some resp) reason message fmt = .ok (some r) ∧
+      msgOf r none = Callback.mkResponse (o.newID "Response_makeFailedResponse" 0) resp.RequestID resp.AcsUrl (o.m_Format o.now fmt) reason message resp.Issuer := by
+  obtain ⟨r, hr, hm, _⟩ := makeResponse_refines o (o.newID "Response_makeFailedResponse" 0) resp.RequestID resp.AcsUrl (o.m_Format o.now fmt) reason message resp.Issuer
+  refine ⟨r, ?_, hm⟩
+  simp [Response_makeFailedResponse, Response_makeFailedResponse.body, Ctl.toRes, deref, hr, Res.isPanic, Res.get]
+
 /-- the hand model's view of a generated `samlp.LogoutResponseType` -/
 def logoutMsgOf (r : samlp_LogoutResponseType) : Logout.Msg :=
   { id := r.Id, inResponseTo := r.InResponseTo, destination := r.Destination, issueInstant := r.IssueInstant,
